@@ -104,7 +104,8 @@ func integerCodecRule(P *Program, R *Report) {
 		return (g.Subject == x && g.BoundA.String() == y) || (g.Subject == y && g.BoundA.String() == x)
 	}})
 	elem := func(body func(a Atom) bool) forAllMemo {
-		fa := &ForAll{P: P, Spec: ForAllSpec{Coll: is("makeslice"), Body: func(f *ssa.Function, l *Loop) *MustPass {
+		// (the loop walks the result list, which has Num slots, or the decoded element list, which has as many - tested above)
+		fa := &ForAll{P: P, Spec: ForAllSpec{Coll: anyOfStr(is("makeslice"), is("new:gabikeys.xmlBases.Bases")), Body: func(f *ssa.Function, l *Loop) *MustPass {
 			return &MustPass{Match: body}
 		}}}
 		return fa.inFn(fn, acc)
@@ -128,6 +129,17 @@ func integerCodecRule(P *Program, R *Report) {
 	for _, s := range sinksOf(fn) {
 		if s.target == "makeslice[#i]" && dependsOn(P, s.val, func(d string) bool { return d == "new:gabikeys.xmlBases.Bases[#i].Bigint" }) {
 			okSlot = true
+		}
+	}
+	// ... or the list is grown by one element per document element, in document order
+	for _, s := range sinksOf(fn) {
+		if s.target != "arg#0" {
+			continue
+		}
+		if seq, ok := seqOf(s.val); ok && len(seq) == 1 && seq[0].Kind == "star" && len(seq[0].Sub) == 1 && seq[0].Sub[0].V != nil {
+			if dependsOn(P, seq[0].Sub[0].V, func(d string) bool { return d == "new:gabikeys.xmlBases.Bases[#i].Bigint" }) {
+				okSlot = true
+			}
 		}
 	}
 	R.decide(rule, kBasesUnm+":slot-order", "base i of the key is element i of the document", okSlot, "", P.Pos(fn.Pos()))
@@ -378,6 +390,14 @@ func structOf(P *Program, tk string) *types.Struct {
 		return nil
 	}
 	o := sp.Pkg.Scope().Lookup(parts[1])
+	if o == nil {
+		// the type under its current name (renamed unexported type, fieldalias.go)
+		for cur, ref := range typeNameAlias {
+			if ref == tk {
+				o = sp.Pkg.Scope().Lookup(cur[strings.Index(cur, ".")+1:])
+			}
+		}
+	}
 	if o == nil {
 		return nil
 	}
